@@ -306,6 +306,11 @@ func genScan(t *Tracer, m *Meta, tier string, seed int64) {
 	for i := 0; i < nB; i++ {
 		ci := (i + int(seed)) % len(boundaryConds)
 		fam := boundaryFamilies[r.Intn(len(boundaryFamilies))]
+		if i < 8 {
+			// the end of the label bitmap exactly on a word boundary, last bit set
+			ci = 0
+			fam = []string{"comb", "twosym"}[i%2]
+		}
 		o4 := complete[r.Intn(len(complete))]
 		keys := seekBoundary(r, fam, ci, o4)
 		if keys == nil {
